@@ -1,0 +1,31 @@
+//go:build verif
+
+// Package verifhook provides named hook points for external verification harnesses.
+// With the build tag "verif" a harness can install a handler that observes (or blocks at)
+// each point; without the tag every call compiles to nothing.
+package verifhook
+
+import "sync/atomic"
+
+type Handler func(site string, kv ...any)
+
+var handler atomic.Pointer[Handler]
+
+// Set installs the handler (nil removes it).
+func Set(h Handler) {
+	if h == nil {
+		handler.Store(nil)
+		return
+	}
+	handler.Store(&h)
+}
+
+// Enabled reports whether hooks are compiled in.
+const Enabled = true
+
+// Hit reports that execution reached the named site.
+func Hit(site string, kv ...any) {
+	if h := handler.Load(); h != nil {
+		(*h)(site, kv...)
+	}
+}
